@@ -420,19 +420,22 @@ func (r *v2run) alone(pick int) {
 
 // finish: close everything, release everything, drain; the discipline must close Output() and Err().
 func (r *v2run) finish() {
-	close(r.stop)
 	synctest.Wait()
-	for _, p := range r.cfg.Prios {
-		if !r.closedIn[p] {
-			r.closeIn(p)
+	closeIdle := func() { // an unbuffered input is closed only after its parked writer got through (its W is already logged)
+		for _, p := range r.cfg.Prios {
+			if !r.closedIn[p] && !r.parked[p].Load() {
+				r.closeIn(p)
+			}
 		}
 	}
+	closeIdle()
 	outClosed := false
 	for round := 0; round < 4000 && !outClosed; round++ {
 		for len(r.held) > 0 {
 			r.release(r.held[0])
 		}
 		synctest.Wait()
+		closeIdle()
 		progressed := false
 		for {
 			got, closed := r.recv()
@@ -449,6 +452,7 @@ func (r *v2run) finish() {
 			time.Sleep(3 * time.Nanosecond)
 		}
 	}
+	defer close(r.stop) // writers that never got through are released only when the bubble is left
 	if !outClosed {
 		for _, p := range r.cfg.Prios {
 			if r.recvCount[p] < r.nextItem[p] {
